@@ -7,6 +7,7 @@ import (
 	"sort"
 	"strings"
 
+	"golang.org/x/tools/go/cfg"
 	"golang.org/x/tools/go/packages"
 
 	"verif/sa/core"
@@ -221,4 +222,574 @@ func uniq(s []string) []string {
 		}
 	}
 	return out
+}
+
+// ---------------------------------------------------------------------------
+// lockset over go/cfg
+
+type lockState map[string]int // key -> 1 (read) | 2 (write)
+
+func (a lockState) equal(b lockState) bool {
+	if len(a) != len(b) {
+		return false
+	}
+	for k, v := range a {
+		if b[k] != v {
+			return false
+		}
+	}
+	return true
+}
+
+func meet(a, b lockState) lockState {
+	out := lockState{}
+	for k, v := range a {
+		if w, ok := b[k]; ok {
+			if w < v {
+				v = w
+			}
+			out[k] = v
+		}
+	}
+	return out
+}
+
+// lockCall classifies X.Lock()/RLock()/Unlock()/RUnlock() on a sync mutex (direct or
+// promoted through an embedded field) and returns the key naming X.
+func lockCall(p *core.Program, call *ast.CallExpr) (key string, op string) {
+	se, ok := ast.Unparen(call.Fun).(*ast.SelectorExpr)
+	if !ok {
+		return "", ""
+	}
+	f, ok := p.ObjectOf(se.Sel).(*types.Func)
+	if !ok || f.Pkg() == nil || f.Pkg().Path() != "sync" {
+		// sonic helper wrappers are handled by callers (rlock/lock of ast.Node)
+		return "", ""
+	}
+	switch f.Name() {
+	case "Lock", "RLock", "Unlock", "RUnlock":
+	default:
+		return "", ""
+	}
+	return exprStr(se.X), f.Name()
+}
+
+// locksets computes, for every block, the lockset at block entry (must-hold).
+func locksets(p *core.Program, g *cfg.CFG, classify func(*ast.CallExpr) (string, string)) map[*cfg.Block]lockState {
+	in := map[*cfg.Block]lockState{}
+	if len(g.Blocks) == 0 {
+		return in
+	}
+	preds := map[*cfg.Block][]*cfg.Block{}
+	for _, b := range g.Blocks {
+		for _, s := range b.Succs {
+			preds[s] = append(preds[s], b)
+		}
+	}
+	out := map[*cfg.Block]lockState{}
+	in[g.Blocks[0]] = lockState{}
+	changed := true
+	for iter := 0; changed && iter < 50; iter++ {
+		changed = false
+		for _, b := range g.Blocks {
+			if !b.Live {
+				continue
+			}
+			var st lockState
+			if b == g.Blocks[0] {
+				st = lockState{}
+			} else {
+				first := true
+				for _, pr := range preds[b] {
+					o, ok := out[pr]
+					if !ok {
+						continue
+					}
+					if first {
+						st = meet(o, o)
+						first = false
+					} else {
+						st = meet(st, o)
+					}
+				}
+				if first {
+					continue
+				}
+			}
+			in[b] = st
+			cur := meet(st, st)
+			for _, n := range b.Nodes {
+				applyLocks(p, n, cur, classify)
+			}
+			if o, ok := out[b]; !ok || !o.equal(cur) {
+				out[b] = cur
+				changed = true
+			}
+		}
+	}
+	return in
+}
+
+func applyLocks(p *core.Program, n ast.Node, st lockState, classify func(*ast.CallExpr) (string, string)) {
+	if _, isDefer := n.(*ast.DeferStmt); isDefer {
+		return // deferred unlock: held until exit
+	}
+	ast.Inspect(n, func(m ast.Node) bool {
+		switch x := m.(type) {
+		case *ast.FuncLit:
+			return false
+		case *ast.CallExpr:
+			k, op := classify(x)
+			switch op {
+			case "Lock":
+				st[k] = 2
+			case "RLock":
+				if st[k] < 1 {
+					st[k] = 1
+				}
+			case "Unlock", "RUnlock":
+				delete(st, k)
+			}
+		}
+		return true
+	})
+}
+
+// heldAt returns the lockset just before the node containing pos.
+func heldAt(p *core.Program, g *cfg.CFG, in map[*cfg.Block]lockState, pos token.Pos, classify func(*ast.CallExpr) (string, string)) (lockState, bool) {
+	b, i := locate(g, pos)
+	if b == nil {
+		return nil, false
+	}
+	st := meet(in[b], in[b])
+	for j := 0; j < i; j++ {
+		applyLocks(p, b.Nodes[j], st, classify)
+	}
+	// within the node itself, locks taken before pos (same statement) are rare: ignore
+	return st, true
+}
+
+// ---------------------------------------------------------------------------
+// L1
+
+type stateClass struct {
+	kind   string // mutex | atomic | initonly | hook | tunable | rotable
+	mutex  string // for mutex: expression text naming the mutex
+	reason string
+}
+
+var pkgStateTable = map[string]stateClass{
+	"internal/resolver.fieldCache":          {"mutex", "fieldLock", "read under RLock, double-checked write under Lock"},
+	"internal/decoder/jitdec.fieldCache":    {"mutex", "fieldCacheMux", "append under the mutex in freezeFields"},
+	"loader.moduleCache":                    {"mutex", "moduleCache", "embedded sync.Mutex"},
+	"loader.lastmoduledatap":                {"atomic", "", "registerModuleLockFree uses atomic helpers"},
+	"loader.loadBatchSeq":                   {"atomic", "", "atomic.AddUint64"},
+	"internal/decoder/jitdec.valueCache":    {"initonly", "", "sole writer freezeValue is called only while package variables are initialised"},
+	"internal/encoder.encodeTypedPointer":   {"hook", "", "ForceUseVM/ForceUseJit: called from init; otherwise exported test switches"},
+	"internal/encoder.pretouchType":         {"hook", "", "ForceUseVM/ForceUseJit"},
+	"internal/encoder/vars.UseVM":           {"hook", "", "ForceUseVM/ForceUseJit"},
+	"internal/encoder/vm.compiler":          {"hook", "", "SetCompiler, called from encoder init"},
+	"internal/encoder/x86.compiler":         {"hook", "", "SetCompiler, called from encoder init"},
+	"internal/envs.UseFastMap":              {"tunable", "", "documented process-wide toggle"},
+	"internal/envs.UseOptDec":               {"tunable", "", "documented process-wide toggle"},
+	"internal/rt.EmptySlice":                {"rotable", "", "address taken, never written through"},
+	"internal/rt.staticuint64s":             {"rotable", "", "address taken, never written through"},
+	"internal/rt.zeroVal":                   {"rotable", "", "address taken, never written through"},
+	"loader.emptyByte":                      {"rotable", "", "address taken, never written through"},
+	"internal/decoder/jitdec._Instr_End":    {"rotable", "", "debug sentinel"},
+	"internal/encoder/x86._Instr_End":       {"rotable", "", "debug sentinel"},
+	"loader/internal/iasm/obj.zeroBytes":    {"rotable", "", "zero source for copy"},
+}
+
+// functions allowed to write hook variables
+var hookWriters = map[string]bool{
+	"internal/encoder.ForceUseJit": true, "internal/encoder.ForceUseVM": true,
+	"internal/encoder/vm.SetCompiler": true, "internal/encoder/x86.SetCompiler": true,
+	"internal/envs.EnableFastMap": true, "internal/envs.DisableFastMap": true,
+	"internal/envs.EnableOptDec": true, "internal/envs.DisableOptDec": true,
+}
+
+func init() {
+	register(&core.Rule{ID: "L1", Min: 20,
+		Doc: "Guarded-by for package state: every package-level variable of the analysed packages that is written (or has its address taken) outside package initialisation is (a) of a self-synchronising type, or (b) in the frozen state table with a class whose condition is re-checked: mutex (every access lies in a region where the named mutex is held; writes need the write lock; lockset over go/cfg, defer Unlock understood), atomic (only used as &v argument of sync/atomic or the loader's atomic helpers), init-only (writers are called only from init/initialisers), hook/tunable (written only by the named switch functions), read-only table (address taken, never assigned). A variable not in the table is a violation naming the unguarded write.",
+		Run: runL1})
+}
+
+// callersOf returns the functions (FuncName) that reference fn by name, and whether
+// any reference is not a direct call.
+func callersOf(p *core.Program, target types.Object) (callers map[string]bool, escapes bool, fromVarInit bool) {
+	callers = map[string]bool{}
+	for _, pk := range p.Pkgs {
+		for _, f := range pk.Syntax {
+			for _, d := range f.Decls {
+				switch d := d.(type) {
+				case *ast.FuncDecl:
+					if d.Body == nil {
+						continue
+					}
+					ast.Inspect(d.Body, func(n ast.Node) bool {
+						if call, ok := n.(*ast.CallExpr); ok {
+							if p.Callee(call) == target {
+								callers[core.FuncName(pk, d)] = true
+							}
+						}
+						return true
+					})
+				case *ast.GenDecl:
+					ast.Inspect(d, func(n ast.Node) bool {
+						if call, ok := n.(*ast.CallExpr); ok && p.Callee(call) == target {
+							fromVarInit = true
+						}
+						return true
+					})
+				}
+			}
+		}
+	}
+	return
+}
+
+func runL1(c *core.Ctx) {
+	p := c.Prog
+	acc := collectPkgVarAccesses(p)
+	byVar := map[*types.Var][]pkgVarAccess{}
+	for _, a := range acc {
+		byVar[a.v] = append(byVar[a.v], a)
+	}
+	var vars []*types.Var
+	for v := range byVar {
+		vars = append(vars, v)
+	}
+	sort.Slice(vars, func(i, j int) bool { return varName(vars[i]) < varName(vars[j]) })
+	cfgs := map[*ast.FuncDecl]*cfg.CFG{}
+	sets := map[*ast.FuncDecl]map[*cfg.Block]lockState{}
+	classify := func(call *ast.CallExpr) (string, string) { return lockCall(p, call) }
+	for _, v := range vars {
+		name := varName(v)
+		if strings.HasPrefix(name, "internal/native.") || strings.HasPrefix(name, "internal/native/") {
+			continue // dispatch tables: decided by S2 + init-only check below
+		}
+		as := byVar[v]
+		mutated := false
+		for _, a := range as {
+			if !a.inInit && (a.write || a.addr) {
+				mutated = true
+			}
+		}
+		if !mutated {
+			continue
+		}
+		if isSelfSync(v.Type()) {
+			c.OK(name, v.Pos(), "self-synchronising type %s", v.Type().String())
+			continue
+		}
+		cl, ok := pkgStateTable[name]
+		if !ok {
+			var w pkgVarAccess
+			for _, a := range as {
+				if !a.inInit && (a.write || a.addr) {
+					w = a
+					break
+				}
+			}
+			what := "written"
+			if !w.write {
+				what = "address-taken"
+			}
+			c.Bad(name, w.pos, "package-level variable %s is %s in %s but has no row in the shared-state table: unreviewed shared mutable state (no lock, atomic or init-only argument)", name, what, core.FuncName(w.pk, w.fn))
+			continue
+		}
+		switch cl.kind {
+		case "mutex":
+			bad := ""
+			var badPos token.Pos
+			n := 0
+			for _, a := range as {
+				if a.inInit {
+					continue
+				}
+				// accesses to the mutex itself (moduleCache.Lock()) are lock operations, not data accesses
+				if a.addr {
+					continue
+				}
+				if isLockOperand(p, a) {
+					continue
+				}
+				g := cfgs[a.fn]
+				if g == nil {
+					g = funcCFG(p, a.fn.Body)
+					cfgs[a.fn] = g
+					sets[a.fn] = locksets(p, g, classify)
+				}
+				st, ok := heldAt(p, g, sets[a.fn], a.pos, classify)
+				if !ok {
+					bad, badPos = "access not located in CFG (closure?)", a.pos
+					break
+				}
+				n++
+				need := 1
+				if a.write {
+					need = 2
+				}
+				if st[cl.mutex] < need {
+					kind := "read"
+					if a.write {
+						kind = "write"
+					}
+					bad = kind + " in " + core.FuncName(a.pk, a.fn) + " without holding " + cl.mutex
+					badPos = a.pos
+					break
+				}
+			}
+			if bad != "" {
+				c.Bad(name, badPos, "%s: %s", name, bad)
+			} else {
+				c.OK(name, v.Pos(), "all %d accesses hold %s (%s)", n, cl.mutex, cl.reason)
+			}
+		case "atomic":
+			bad := ""
+			var badPos token.Pos
+			for _, a := range as {
+				if a.inInit {
+					continue
+				}
+				if !a.addr || !insideAtomicCall(p, a) {
+					if a.addr {
+						bad = "address passed to a non-atomic function in " + core.FuncName(a.pk, a.fn)
+					} else if a.write {
+						bad = "plain write in " + core.FuncName(a.pk, a.fn)
+					} else if !insideAddr(a, as) {
+						bad = "plain read in " + core.FuncName(a.pk, a.fn)
+					}
+					if bad != "" {
+						badPos = a.pos
+						break
+					}
+				}
+			}
+			if bad != "" {
+				c.Bad(name, badPos, "%s must only be accessed atomically: %s", name, bad)
+			} else {
+				c.OK(name, v.Pos(), "only accessed through sync/atomic (%s)", cl.reason)
+			}
+		case "initonly":
+			bad := ""
+			var badPos token.Pos
+			for _, a := range as {
+				if a.inInit || !a.write {
+					continue
+				}
+				fo := p.ObjectOf(a.fn.Name)
+				callers, _, fromInit := callersOf(p, fo)
+				for cn := range callers {
+					if !strings.HasSuffix(cn, ".init") {
+						// a caller that is itself only used in initialisers is fine (one level)
+						co := lookupFunc(p, cn)
+						cc, _, cinit := callersOf(p, co)
+						if co == nil || len(cc) > 0 || !cinit {
+							bad = "writer " + core.FuncName(a.pk, a.fn) + " is called from " + cn + " (not an initialiser)"
+							badPos = a.pos
+						}
+					}
+				}
+				if len(callers) == 0 && !fromInit {
+					// unused writer: harmless
+				}
+			}
+			if bad != "" {
+				c.Bad(name, badPos, "%s: %s", name, bad)
+			} else {
+				c.OK(name, v.Pos(), "written only during package initialisation (%s)", cl.reason)
+			}
+		case "hook", "tunable":
+			bad := ""
+			var badPos token.Pos
+			for _, a := range as {
+				if a.inInit || (!a.write && !a.addr) {
+					continue
+				}
+				if !hookWriters[core.FuncName(a.pk, a.fn)] {
+					bad = "written by " + core.FuncName(a.pk, a.fn) + ", which is not one of the named switch functions"
+					badPos = a.pos
+				}
+			}
+			if bad != "" {
+				c.Bad(name, badPos, "%s: %s", name, bad)
+			} else {
+				c.OK(name, v.Pos(), "written only by the named switch functions (%s)", cl.reason)
+			}
+		case "rotable":
+			bad := ""
+			var badPos token.Pos
+			for _, a := range as {
+				if !a.inInit && a.write {
+					bad = "assigned in " + core.FuncName(a.pk, a.fn)
+					badPos = a.pos
+				}
+			}
+			if bad != "" {
+				c.Bad(name, badPos, "read-only table %s is %s", name, bad)
+			} else {
+				c.OK(name, v.Pos(), "address taken only, never assigned (%s)", cl.reason)
+			}
+		}
+	}
+	// native dispatch variables: writers are useSSE/useAVX2, called only from init
+	nat := p.Pkg("internal/native")
+	if nat != nil && core.FuncDecl(nat, "", "useSSE") != nil {
+		for _, fn := range []string{"useSSE", "useAVX2"} {
+			callers, _, _ := callersOf(p, core.Obj(nat, fn))
+			good := true
+			for cn := range callers {
+				if !strings.HasSuffix(cn, ".init") {
+					good = false
+				}
+			}
+			c.Check(good && len(callers) > 0, "internal/native."+fn+"/init-only", token.NoPos, "called only from init", fn+" is called outside init: the dispatch tables would be rewritten while codecs run")
+		}
+		badW := ""
+		for _, a := range acc {
+			if a.write && !a.inInit && a.v.Pkg() == nat.Types {
+				f := core.FuncName(a.pk, a.fn)
+				if f != "internal/native.useSSE" && f != "internal/native.useAVX2" {
+					badW = a.v.Name() + " written by " + f
+				}
+			}
+		}
+		c.Check(badW == "", "internal/native/dispatch-writers", token.NoPos, "dispatch variables written only by useSSE/useAVX2", badW)
+	}
+}
+
+func lookupFunc(p *core.Program, name string) types.Object {
+	i := strings.LastIndex(name, ".")
+	if i < 0 || strings.Contains(name, "(") {
+		return nil
+	}
+	rel, fn := name[:i], name[i+1:]
+	if rel == "sonic" {
+		rel = ""
+	}
+	return core.Obj(p.Pkg(rel), fn)
+}
+
+// isLockOperand: the access is the receiver of a Lock/Unlock call (moduleCache.Lock()).
+func isLockOperand(p *core.Program, a pkgVarAccess) bool {
+	found := false
+	ast.Inspect(a.fn.Body, func(n ast.Node) bool {
+		call, ok := n.(*ast.CallExpr)
+		if !ok {
+			return true
+		}
+		if k, op := lockCall(p, call); op != "" && k != "" {
+			se := call.Fun.(*ast.SelectorExpr)
+			if se.X.Pos() <= a.pos && a.pos < se.X.End() {
+				found = true
+			}
+		}
+		return !found
+	})
+	return found
+}
+
+func insideAtomicCall(p *core.Program, a pkgVarAccess) bool {
+	found := false
+	ast.Inspect(a.fn.Body, func(n ast.Node) bool {
+		call, ok := n.(*ast.CallExpr)
+		if !ok || a.pos < call.Pos() || a.pos >= call.End() {
+			return true
+		}
+		for j, arg := range call.Args {
+			if arg.Pos() <= a.pos && a.pos < arg.End() {
+				if atomicSink(p, call, j, 0) {
+					found = true
+				}
+			}
+		}
+		return true
+	})
+	return found
+}
+
+// atomicSink: argument j of call flows only into sync/atomic operations
+// (directly, or through sonic helper functions that use the parameter only so).
+func atomicSink(p *core.Program, call *ast.CallExpr, j int, depth int) bool {
+	o := p.Callee(call)
+	if o == nil || o.Pkg() == nil {
+		// conversion such as (*unsafe.Pointer)(unsafe.Pointer(p)): not a sink by itself
+		return false
+	}
+	if o.Pkg().Path() == "sync/atomic" {
+		return true
+	}
+	if !core.IsSonic(o.Pkg()) || depth > 3 {
+		return false
+	}
+	fd := p.DeclOf(o)
+	if fd == nil || fd.Body == nil {
+		return false
+	}
+	// parameter object at index j
+	var params []types.Object
+	for _, f := range fd.Type.Params.List {
+		for _, n := range f.Names {
+			params = append(params, p.ObjectOf(n))
+		}
+	}
+	if j >= len(params) {
+		return false
+	}
+	par := params[j]
+	ok := true
+	uses := 0
+	var visit func(n ast.Node, stack []*ast.CallExpr)
+	visit = func(n ast.Node, stack []*ast.CallExpr) {
+		ast.Inspect(n, func(m ast.Node) bool {
+			switch x := m.(type) {
+			case *ast.CallExpr:
+				for _, a := range x.Args {
+					visit(a, append(stack, x))
+				}
+				visit(x.Fun, stack)
+				return false
+			case *ast.Ident:
+				if p.ObjectOf(x) != par || !p.IsUse(x) {
+					return true
+				}
+				uses++
+				// innermost enclosing real call (skipping conversions)
+				sunk := false
+				for i := len(stack) - 1; i >= 0; i-- {
+					cl := stack[i]
+					co := p.Callee(cl)
+					if _, isFn := co.(*types.Func); !isFn {
+						continue // conversion
+					}
+					for k, a := range cl.Args {
+						if a.Pos() <= x.Pos() && x.Pos() < a.End() {
+							sunk = atomicSink(p, cl, k, depth+1)
+						}
+					}
+					break
+				}
+				if !sunk {
+					ok = false
+				}
+			}
+			return true
+		})
+	}
+	visit(fd.Body, nil)
+	return ok && uses > 0
+}
+
+// insideAddr: a plain identifier access that is the operand of a recorded &v.
+func insideAddr(a pkgVarAccess, all []pkgVarAccess) bool {
+	for _, b := range all {
+		if b.addr && b.fn == a.fn {
+			if u, ok := b.node.(*ast.UnaryExpr); ok && u.Pos() <= a.pos && a.pos < u.End() {
+				return true
+			}
+		}
+	}
+	return false
 }
